@@ -286,7 +286,7 @@ func historyCase(r *vf.Run, pool []*keys.Identity, round int) tcase {
 			case "honest-in":
 				dctx, cancel := context.WithTimeout(e.ctx, watchdog)
 				e.logf("step %d: honest %s dials L", i, vhome[s.v])
-				lnk, _, err := V[s.v].Tpt.DialPeer(dctx, pool[0].ID, "L-home")
+				lnk, _, err := e.dialFrom(V[s.v], dctx, pool[0].ID, "L-home")
 				cancel()
 				e.r.Count("handshakes_honest", 1)
 				if err != nil {
@@ -311,7 +311,7 @@ func historyCase(r *vf.Run, pool []*keys.Identity, round int) tcase {
 				e.mu.Unlock()
 				dctx, cancel := context.WithTimeout(e.ctx, watchdog)
 				e.logf("step %d: L dials honest %s at %s requiring it", i, vhome[s.v], svc)
-				lnk, _, err := L.Tpt.DialPeer(dctx, pool[s.v].ID, svc)
+				lnk, _, err := e.dialFrom(L, dctx, pool[s.v].ID, svc)
 				cancel()
 				e.r.Count("handshakes_honest", 1)
 				if err != nil {
@@ -372,7 +372,7 @@ func (e *tenv) overlapSetup(tptKind string, who *keys.Identity) *dialEnd {
 		e.truth["L-home"], e.truth[svc] = e.pool[0].ID, who.ID
 		e.mu.Unlock()
 		sn.Serve(svc, R)
-		return &dialEnd{dial: L.Tpt.DialPeer, hold: sn.Hold, held: sn.Held, release: sn.Release}
+		return &dialEnd{dial: e.notedDial("L-home", L.Rec, L.Tpt.DialPeer), hold: sn.Hold, held: sn.Held, release: sn.Release}
 	}
 	L := e.honest("L-home", e.pool[0])
 	R := e.honest("R-home", who)
@@ -380,7 +380,7 @@ func (e *tenv) overlapSetup(tptKind string, who *keys.Identity) *dialEnd {
 	e.mu.Lock()
 	e.truth[svc] = who.ID
 	e.mu.Unlock()
-	return &dialEnd{dial: L.Tpt.DialPeer, hold: e.n.Hold, held: e.n.Held, release: e.n.Release}
+	return &dialEnd{dial: e.notedDial("L-home", L.Rec, L.Tpt.DialPeer), hold: e.n.Hold, held: e.n.Held, release: e.n.Release}
 }
 
 // overlapCases: two DialPeer requests for the same address with required peers
